@@ -93,3 +93,37 @@ Proof.
     - destruct (IH sa (fst (sstep scB sb e))) as [A B]. split; [exact A | exact B]. }
   apply H.
 Qed.
+
+(** The general fact behind [independent] and [sindependent]: two machines that share no state,
+    driven by an arbitrary interleaving of their events, each compute what they compute alone.
+    Instantiated below for a stream next to a call. *)
+Section Product.
+Variables (SA SB EA EB : Type) (fa : SA -> EA -> SA) (fb : SB -> EB -> SB).
+
+Definition pstep (st : SA * SB) (e : EA + EB) : SA * SB :=
+  match e with
+  | inl a => (fa (fst st) a, snd st)
+  | inr b => (fst st, fb (snd st) b)
+  end.
+
+Fixpoint lefts (evs : list (EA + EB)) : list EA :=
+  match evs with [] => [] | inl a :: r => a :: lefts r | inr _ :: r => lefts r end.
+Fixpoint rights (evs : list (EA + EB)) : list EB :=
+  match evs with [] => [] | inl _ :: r => rights r | inr b :: r => b :: rights r end.
+
+Theorem product_independent : forall evs sa sb,
+  fst (fold_left pstep evs (sa, sb)) = fold_left fa (lefts evs) sa /\
+  snd (fold_left pstep evs (sa, sb)) = fold_left fb (rights evs) sb.
+Proof.
+  induction evs as [|[a|b] evs IH]; intros sa sb; [split; reflexivity| |]; cbn [fold_left lefts rights pstep fst snd]; apply IH.
+Qed.
+End Product.
+
+(** A stream and a call on one graph, interleaved arbitrarily. *)
+Definition mixrun (sc : scfg) (cf : cfg) (evs : list (sevent + event)) : state * state :=
+  fold_left (pstep _ _ _ _ (fun s e => fst (sstep sc s e)) (step cf)) evs (sinit sc, init cf).
+
+Theorem mixed_independent : forall sc cf evs,
+  fst (mixrun sc cf evs) = srun sc (lefts _ _ evs) /\
+  snd (mixrun sc cf evs) = run cf (rights _ _ evs).
+Proof. intros sc cf evs. unfold mixrun, srun, run. apply product_independent. Qed.
